@@ -111,8 +111,12 @@ def repo_sources():
 
 
 def inc_flags():
-    return ["-I" + os.path.join(REPO, "include"), "-I" + os.path.join(REPO, "lib"),
-            "-I" + os.path.join(VERIF, "harness")]
+    fl = ["-I" + os.path.join(REPO, "include"), "-I" + os.path.join(REPO, "lib"),
+          "-I" + os.path.join(VERIF, "harness")]
+    if not os.path.exists(os.path.join(REPO, "include", "config.h")):
+        # scratch worktrees lack the configure-generated headers (config.h, qb/qbconfig.h): take those from /repo
+        fl += ["-idirafter", "/repo/include"]
+    return fl
 
 
 def _prune(dirpath, keep=4):
